@@ -6,7 +6,7 @@ TR = ['C05_Load', 'C05_Scope']
 
 
 def run(tier):
-    f = vise.Family(PID, tier, MC, TR, ['scope', 'capacity', 'nav'], modes=('L', 'P') if tier == 'thorough' else ('L',))
+    f = vise.Family(PID, tier, MC, TR, ['scope', 'capacity', 'nav'], modes=('L', 'P'))
     f.out.assumptions = ['external function results are logged by the recording resource (length, identity, flags) and replayed into the spec',
                          'values abstracted to (identity, length)']
     t = f.thorough
